@@ -220,11 +220,81 @@ let run_lyds ty place every ops =
   with Null_deref -> Buffer.add_string out "NULL-DEREF");
   Buffer.contents out
 
+(* ---- sib: all children of one parent (Siblings.v) ---- *)
+let sib_sys i = int_of_nat i = 2
+let sib_user i = let k = int_of_nat i in k = 4 || k = 5
+let sib_hi _ = nat_of_int 8
+
+let show_snode (n : snode) =
+  match n.sidx with
+  | Some i -> Printf.sprintf "%d:%d#%d" (int_of_nat i) (int_of_z n.skey) (int_of_n n.sid)
+  | None -> Printf.sprintf "~%c#%d" (Char.chr (int_of_z n.skey)) (int_of_n n.sid)
+
+let run_sib place ops =
+  let ops = split_ops ops in
+  let l = ref [] and pool = ref [] and next = ref 0 in
+  let out = Buffer.create 1024 in
+  let rec remove_nth_l i l = match l with [] -> [] | y :: r -> if i = 0 then r else y :: remove_nth_l (i - 1) r in
+  let ins x =
+    (* the children hash table exists in a container with at least 4 children (LYD_HT_MIN_ITEMS) *)
+    let ht = place = "c" && List.length !l >= 4 in
+    l := sib_insert sib_sys false sib_hi ht !l x in
+  List.iteri (fun opi tok ->
+    if opi > 0 then Buffer.add_char out ' ';
+    let n = List.length !l in
+    let mk sidx key = let x = { sidx = sidx; skey = z_of_int key; sid = n_of_int !next } in incr next; x in
+    let rest = String.sub tok 1 (String.length tok - 1) in
+    let res =
+      match tok.[0] with
+      | 'L' ->
+          let a = int_of_string rest in
+          let lidx = [| 0; 0; 1; 3; 6; 7; 8 |] in
+          if a < 1 || a > 6 then "x"
+          else
+            let si = lidx.(a) in
+            if List.exists (fun m -> m.sidx = Some (nat_of_int si)) !l then "x"
+            else (ins (mk (Some (nat_of_int si)) 0); "+")
+      | 'S' -> ins (mk (Some (nat_of_int 2)) (int_of_string rest)); "+"
+      | 'U' -> ins (mk (Some (nat_of_int 4)) (int_of_string rest)); "+"
+      | 'V' -> ins (mk (Some (nat_of_int 5)) (int_of_string rest)); "+"
+      | 'O' -> ins (mk None (Char.code (if rest = "" then 'x' else rest.[0]))); "+"
+      | 'A' | 'B' ->
+          (match String.split_on_char '.' rest with
+           | [a; b] ->
+               let i = int_of_string a and j = int_of_string b in
+               if i < 0 || i >= n || j < 0 || j >= n then "x"
+               else (match sib_move sib_user false (tok.[0] = 'A') !l (nat_of_int i) (nat_of_int j) with
+                     | None -> "E"
+                     | Some l' -> l := l'; "+")
+           | _ -> "?")
+      | 'X' | 'Y' ->
+          let i = int_of_string rest in
+          if i < 0 || i >= n then "x"
+          else begin
+            if tok.[0] = 'Y' then pool := !pool @ [List.nth !l i];
+            l := remove_at (nat_of_int i) !l; "-"
+          end
+      | 'R' ->
+          let j = int_of_string rest in
+          if j < 0 || j >= List.length !pool then "x"
+          else begin
+            let x = List.nth !pool j in
+            pool := remove_nth_l j !pool;
+            ins x; "+"
+          end
+      | _ -> "?" in
+    Buffer.add_string out res;
+    Buffer.add_char out '/';
+    Buffer.add_string out (String.concat "," (List.map show_snode !l));
+    Buffer.add_string out "/ok") ops;
+  Buffer.contents out
+
 let run (f : string list) : string =
   match f with
   | ["rbs"; every; ops] -> run_rbs (int_of_string every) ops
   | ["lyds"; ty; place; every; ops] ->
       if List.mem ty ["i8"; "str"; "d64"; "un"; "l1"; "l2"] then run_lyds ty place (int_of_string every) ops else "?"
+  | ["sib"; place; ops] -> run_sib place ops
   | _ -> "?"
 
 let () = main_loop run
